@@ -8,7 +8,7 @@ from harness import gallina as G
 ID = "C48"
 COQ_DIRS = ["C48", "Gen"]
 PROPERTY_FILE = "C48/Property.v"
-RUN_IMPORTS = "From TV Require Import C48.Model C48.Spec C48.Run."
+RUN_IMPORTS = "From TV Require Import C48.Model C48.Spec C48.ModelP4 C48.Run."
 RUN_FN = "run_case"
 CHECK_FN = "check_case"
 INPUT_TYPE = "input"
@@ -109,6 +109,44 @@ def run_impl(case):
         if not isinstance(r, str):
             return [G.Tag("NotStr")]
         return r.encode("utf-8")
+    if kind in ("reqtok", "acctok"):
+        import urllib.parse as _up
+
+        class T(auth.OAuthMixin):
+            _OAUTH_REQUEST_TOKEN_URL = build_url(case)
+            _OAUTH_ACCESS_TOKEN_URL = build_url(case)
+
+            def _oauth_consumer_token(self):
+                ck = case["ck"].encode("utf-8") if case["ck_bytes"] else case["ck"]
+                return dict(key=ck, secret=case["cs"])
+
+        class Req:
+            def full_url(self):
+                return case["full_url"]
+        if case["v"] == "1.0":
+            T._OAUTH_VERSION = "1.0"
+        elif case["v_explicit"]:
+            T._OAUTH_VERSION = "1.0a"
+        h = T()
+        h.request = Req()
+        with _Capture(case["time"] + case["frac"], bytes(case["nonce"])) as cap:
+            if kind == "reqtok":
+                extra = None if case["params"] is None else dict(case["params"])
+                url = h._oauth_request_token_url(callback_uri=case["cb"], extra_params=extra)
+            else:
+                tok = dict(key=case["tk"], secret=case["ts"])
+                if case["verifier"] is not None:
+                    tok["verifier"] = case["verifier"]
+                url = h._oauth_access_token_url(tok)
+        if len(cap.captured) != 1:
+            return [G.Tag("HmacCalls"), len(cap.captured)]
+        key, msg = cap.captured[0]
+        if not isinstance(url, str):
+            return [G.Tag("NotStr")]
+        needle = "oauth_signature=" + _up.quote_plus(expected_sig(key, msg))
+        if url.count(needle) != 1:
+            return [G.Tag("SignatureNotInUrl"), url.count(needle)]
+        return [key, msg, url.replace(needle, "oauth_signature=%40").encode("utf-8")]
     if kind == "req":
         class H(auth.OAuthMixin):
             def _oauth_consumer_token(self):
@@ -169,6 +207,21 @@ def coq_input(c):
     v = G.gbool(c["v"] == "1.0a") if kind != "esc" else None
     if kind == "esc":
         return "(IEsc %s)" % G.gbytes(bytes(c["bytes"]))
+    if kind in ("reqtok", "acctok"):
+        loc = "(%s, %s, %s, %s, %s)" % (
+            G.gbytes(b(c["scheme"])), G.goption(c["ui"], lambda x: G.gbytes(b(x)), "(list N)"),
+            G.gbytes(b(c["host"])), G.goption(c["port"], lambda x: G.gbytes(b(x)), "(list N)"), G.gbytes(b(c["path"])))
+        if kind == "reqtok":
+            import urllib.parse as _up
+            cb = c["cb"]
+            joined = _up.urljoin(c["full_url"], cb) if cb and cb != "oob" else ""
+            ps = G.glist(["(%s, %s)" % (G.gbytes(b(str(k))), G.gbytes(b(str(v)))) for k, v in (c["params"] or [])], "(list N * list N)")
+            return "(IReqTok %s %s %s %s %s %s %s %s %s)" % (
+                v, loc, G.goption(cb, lambda x: G.gbytes(b(x)), "(list N)"), G.gbytes(b(joined)), ps,
+                G.gbytes(b(c["ck"])), G.gbytes(b(c["cs"])), G.gn(c["time"]), G.gbytes(bytes(c["nonce"])))
+        return "(IAccTok %s %s (%s, %s, %s, %s) %s %s %s)" % (
+            v, loc, G.gbytes(b(c["ck"])), G.gbytes(b(c["cs"])), G.gbytes(b(c["tk"])), G.gbytes(b(c["ts"])),
+            G.goption(c["verifier"], lambda x: G.gbytes(b(x)), "(list N)"), G.gn(c["time"]), G.gbytes(bytes(c["nonce"])))
     if kind == "req":
         return "(IReq %s (%s) %s (%s, %s, %s, %s) %s %s)" % (
             v, gurl(c), gparams(c), G.gbytes(b(c["ck"])), G.gbytes(b(c["cs"])), G.gbytes(b(c["tk"])), G.gbytes(b(c["ts"])),
@@ -203,6 +256,41 @@ def py_check(c, o):
     kind = c.get("kind", "sign")
     if kind == "esc":
         return isinstance(o, bytes) and o == rfc_encode(bytes(c["bytes"])).encode()
+    if kind in ("reqtok", "acctok"):
+        # independent: parse the produced URL with urllib, the signature must be the RFC signature of exactly
+        # the other parameters in the query
+        import urllib.parse as _up
+        if not (isinstance(o, list) and len(o) == 3 and isinstance(o[0], bytes) and isinstance(o[2], bytes)):
+            return False
+        url = o[2].decode("utf-8")
+        head, sep, query = url.partition("?")
+        pairs = _up.parse_qsl(query, keep_blank_values=True, strict_parsing=bool(query))
+        names = [k for k, _ in pairs]
+        if head != build_url(c) or sep != "?" or len(set(names)) != len(names):
+            return False
+        d = dict(pairs)
+        if d.pop("oauth_signature", None) != "@":
+            return False
+        want = {"oauth_consumer_key": c["ck"], "oauth_signature_method": "HMAC-SHA1", "oauth_timestamp": "%d" % c["time"],
+                "oauth_nonce": bytes(c["nonce"]).hex(), "oauth_version": "1.0"}
+        if kind == "acctok":
+            want["oauth_token"] = c["tk"]
+            if c["verifier"] is not None:
+                want["oauth_verifier"] = c["verifier"]
+            tsec = c["ts"]
+        else:
+            tsec = ""
+            if c["v"] == "1.0a":
+                if c["cb"] == "oob":
+                    want["oauth_callback"] = "oob"
+                elif c["cb"]:
+                    want["oauth_callback"] = _up.urljoin(c["full_url"], c["cb"])
+                want.update((str(k), str(v)) for k, v in (c["params"] or []))
+                want.pop("oauth_signature", None)
+        if d != want:
+            return False
+        key = (rfc_encode(c["cs"]) + "&" + rfc_encode(tsec)).encode()
+        return o[0] == key and o[1] == rfc_base(dict(c, method="GET"), d.items())
     if kind == "req":
         if not (isinstance(o, list) and len(o) == 3 and isinstance(o[0], bytes) and isinstance(o[2], list)):
             return False
@@ -247,6 +335,19 @@ def mkreq(**kw):
     return c
 
 
+def mktok(kind, **kw):
+    c = mk(kind=kind, ck="ck", ck_bytes=False, tk="tk", v_explicit=True, time=1700000000, frac=0.5, nonce=list(range(16)),
+           params=None, cb=None, full_url="http://app.example/login?next=%2F", verifier=None)
+    c.update(kw)
+    return c
+
+
+CALLBACKS = [None, None, "", "oob", "OOB", "/auth/done", "done?x=1&y=a b", "https://other.example/cb", "//cdn.example/x", "../up", "?q=caf\xe9"]
+FULL_URLS = ["http://app.example/login?next=%2F", "https://App.example:8443/a/b/c", "http://h/"]
+VERIFIERS = [None, None, "123456", "a b&c=d", "caf\xe9", ""]
+EXTRA_NAMES = ["scope", "x_auth_access_type", "a b", "oauth_callback", "oauth_nonce", "caf\xe9", "=", "&", "z"]
+
+
 def mkesc(data, as_="bytes"):
     return {"kind": "esc", "bytes": list(data), "as": as_}
 
@@ -258,6 +359,10 @@ def corpus_cases():
             mkreq(), mkreq(v="1.0"), mkreq(v_explicit=False, cs="a/b", ts="c/d~"), mkreq(params=[["oauth_nonce", "x"], ["q", "1"]]),
             mkreq(params=[["oauth_signature", "forged"], ["oauth_token", "other"]]), mkreq(params=[], time=0, frac=0.999, nonce=[255] * 16),
             mkreq(method="post", port="80", ui="u:p", host="EXAMPLE.com", ck="caf\xe9", ck_bytes=True),
+            mktok("reqtok"), mktok("reqtok", v="1.0", cb="/cb", params=[["scope", "x"]]), mktok("reqtok", cb="oob"),
+            mktok("reqtok", cb="/auth/done", params=[["scope", "a b"], ["oauth_callback", "http://evil/"]]), mktok("reqtok", cb="", params=[]),
+            mktok("reqtok", v_explicit=False, cb="https://other.example/cb", cs="a/b", port="80", ui="u:p"),
+            mktok("acctok"), mktok("acctok", v="1.0", verifier="a b&c"), mktok("acctok", verifier="", ts="c/d", cs="a&b"),
             mkesc(range(0, 64)), mkesc(range(64, 128)), mkesc(range(128, 192)), mkesc(range(192, 256)),
             mkesc("caf\xe9 \u20ac/~".encode("utf-8"), "str"), mkesc(b"", "str"), mkesc(b"")]
 
@@ -290,6 +395,16 @@ def gen_cases(rng, tier):
         out.append(mkreq(v=rng.choice(["1.0", "1.0a"]), v_explicit=rng.random() < 0.5, params=params, ck=rng.choice(KEYS), ck_bytes=rng.random() < 0.3,
                          tk=rng.choice(KEYS), cs=rng.choice(SECRETS), ts=rng.choice(SECRETS),
                          time=rng.choice(TIMES + [rng.randrange(0, 2 ** 33)] * 4), frac=rng.choice([0.0, 0.25, 0.999]), nonce=nonce, **gen_url(rng)))
+    for _ in range(60 if tier == "quick" else 900):
+        common = dict(v=rng.choice(["1.0", "1.0a"]), v_explicit=rng.random() < 0.5, ck=rng.choice(KEYS), ck_bytes=rng.random() < 0.3,
+                      cs=rng.choice(SECRETS), time=rng.choice(TIMES + [rng.randrange(0, 2 ** 33)] * 4), frac=rng.choice([0.0, 0.999]),
+                      nonce=[rng.randrange(256) for _ in range(16)], **gen_url(rng))
+        if rng.random() < 0.6:
+            names = rng.sample(EXTRA_NAMES, rng.randrange(0, 4))
+            params = rng.choice([None, [[k, rng.choice(VALUES + [7])] for k in names]])
+            out.append(mktok("reqtok", cb=rng.choice(CALLBACKS), full_url=rng.choice(FULL_URLS), params=params, **common))
+        else:
+            out.append(mktok("acctok", tk=rng.choice(KEYS), ts=rng.choice(SECRETS), verifier=rng.choice(VERIFIERS), **common))
     if tier != "quick":
         # every ASCII character as a one-character secret, in both versions
         for v in range(128):
@@ -317,7 +432,7 @@ def nontrivial(c, o):
     kind = c.get("kind", "sign")
     if kind == "esc":
         return ("esc", bytes(c["bytes"]).hex()) if any(chr(v) not in UNRESERVED for v in c["bytes"]) else None
-    if c["port"] or c["ui"] or c["host"] != c["host"].lower() or any(not str(k).isalnum() or not str(v).isalnum() for k, v in c["params"]):
+    if c["port"] or c["ui"] or c["host"] != c["host"].lower() or any(not str(k).isalnum() or not str(v).isalnum() for k, v in (c["params"] or [])):
         return repr(sorted(c.items(), key=str))
     return None
 
@@ -334,10 +449,14 @@ def classify(c, o):
     yield "v=" + c["v"]
     yield "port=" + ("none" if c["port"] is None else "default" if (c["scheme"].lower(), c["port"]) in (("http", "80"), ("https", "443")) else "other")
     yield "userinfo=" + ("yes" if c["ui"] else "no")
-    yield "params=%d" % len(c["params"])
-    yield "token=" + ("none" if c["ts"] is None else "yes")
+    yield "params=%d" % len(c["params"] or [])
+    yield "token=" + ("none" if c.get("ts") is None else "yes")
     if kind == "req":
         yield "request_names_collide=" + ("yes" if any(str(k) in PROTOCOL for k, _ in c["params"]) else "no")
+    if kind == "reqtok":
+        yield "callback=" + ("none" if not c["cb"] else "oob" if c["cb"] == "oob" else "url")
+    if kind == "acctok":
+        yield "verifier=" + ("no" if c["verifier"] is None else "yes")
     if "/" in c["cs"] or "/" in (c["ts"] or ""):
         yield "secret_with_slash"
 
